@@ -6,8 +6,6 @@ open IcyVerif.Sixel IcyVerif.Drv
 /-- the enclosing Rust function and the panic class of a site (what the harness derives from the panic
     location and message) -/
 def siteFn : Site → String
-  | .cursorY => "sixel_mod.rs::parse_sixel_data:overflow"
-  | .cursorX | .cursorY6 => "sixel_mod.rs::translate_sixel_to_pixel:overflow"
   | .rowIndex | .pixelIndex => "sixel_mod.rs::translate_sixel_to_pixel:index"
   | .paletteMod => "sixel_mod.rs::translate_sixel_to_pixel:rem-zero"
   | .numIndex => "sixel_mod.rs::parse_char:index"
